@@ -243,6 +243,12 @@ class Emission:
 
             # (c) who delivers the first data cell to the exit
             state = {"redirected": 0}
+            if c["first_src"] == "other_ip_after_replay":
+                # somebody at another IP address first replays a genuine signed message of the previous hop (an
+                # introduction request: no replay protection) to the exit, then delivers the first data cell from there
+                intro = prev.overlay.create_introduction_request(UDPv4Address(*exit_node.address))
+                w.net.inject(("6.6.6.6", prev.address[1]), exit_node.address, intro, note="replayed signed message")
+                await w.net.settle()
             if c["first_src"] != "prev":
                 def hook(fl):
                     cell = parse_cell(fl.data, prefix)
@@ -266,7 +272,7 @@ class Emission:
                                                            f"under exit flags {sorted(fs)}")
                 if a[0] in ("0.0.0.0", "::") and a[1] == 0:
                     self.fail("P3", "sendto", "a datagram was emitted towards the null address")
-            foreign_first = c["first_src"] == "other_ip"
+            foreign_first = c["first_src"] in ("other_ip", "other_ip_after_replay")
             if foreign_first:
                 if loop.transports:
                     self.fail("P4", "enable", "an outside socket was opened by a data cell that did not come from the "
@@ -396,7 +402,7 @@ def _strategy():
         "size": st.sampled_from([2, 8, 12, 20, 23, 24, 64, 300, 1200]),
         "dest": st.sampled_from(DESTS + DESTS[:2]),
         "direction": st.sampled_from(["out", "out", "in"]),
-        "first_src": st.sampled_from(["prev", "prev", "prev", "same_ip_other_port", "other_ip"]),
+        "first_src": st.sampled_from(["prev", "prev", "prev", "same_ip_other_port", "other_ip", "other_ip_after_replay"]),
         "in_via": st.sampled_from(["v4", "v4", "v6", "v6mapped"]),
         "followups": st.lists(st.tuples(st.sampled_from(KINDS), st.sampled_from([2, 12, 23, 64, 300]),
                                         st.integers(0, len(DESTS) - 1)).map(list), max_size=3),
